@@ -107,6 +107,10 @@ fn parse_dockerignore(
         let reader = BufReader::new(file);
         reader
             .lines()
+            .map_while(|line| match line {
+                Err(ref err) if err.kind() != std::io::ErrorKind::InvalidData => None,
+                line => Some(line),
+            })
             .enumerate()
             .for_each(|(number, line)| {
                 if err.is_empty() {
